@@ -256,6 +256,12 @@ func replayC11(c *Ctx, rule string, raw json.RawMessage) {
 		return
 	}
 	switch cs.Kind {
+	case "alias":
+		before := tablesFingerprint()
+		clobberTables()
+		if tablesFingerprint() != before {
+			c.Violation("table-aliased", "C11.alias", cs, "replayed: fresh tables differ after a caller edited the returned slices")
+		}
 	case "table":
 		judgeTable(c)
 	case "plus":
@@ -346,6 +352,16 @@ func runC11(c *Ctx, phase string) {
 		}
 		for j := 0; j < nOthers; j++ {
 			judgeCross(c, a, ids[r.Intn(len(ids))], r)
+		}
+	}
+	if c.Shard == 0 {
+		// last: the family table a caller was handed and then edited (sorted, reversed, filtered in place) must not be the one
+		// the '+' comparison consults – otherwise "true version order" holds only until the first such caller
+		before := tablesFingerprint()
+		clobberTables()
+		c.Inc("table_refetched_after_client_edit")
+		if tablesFingerprint() != before {
+			c.Violation("table-aliased", "C11.alias", map[string]string{"kind": "alias"}, "after a caller overwrote what LicenseRanges() (and the id list functions) returned, fresh calls return a different table: the version order '+' relies on is whatever the last caller left behind")
 		}
 	}
 }
